@@ -565,3 +565,67 @@ Proof.
     2:{ rewrite <- Z.pow_add_r by lia. f_equal. unfold k, c. lia. }
     rewrite Z.mul_assoc. apply Z.div_mul. pose proof (pow2_pos (Z.of_nat k)). lia.
 Qed.
+
+(** * the main statements *)
+
+Lemma mask_init h : (h <= 30)%nat -> shl64 c01 (uint_of_i32 (Z.of_nat h)) = maskAt h.
+Proof.
+  intros Hh. pose proof (pow2_le_30 h Hh). unfold uint_of_i32. rewrite u64_id by lia.
+  unfold maskAt, c01. change 0x0100000001 with (2 ^ 32 + 1). apply shl64_small; lia.
+Qed.
+
+(** the model computes the word of the node the pure descent finds *)
+Lemma IndexToPath_node_at h idx : (h <= 30)%nat -> 0 <= idx < 2 ^ (Z.of_nat h + 1) - 1 ->
+  IndexToPath (Z.of_nat h) idx = Some (enc h (node_at h idx)).
+Proof.
+  intros Hh Hi. unfold IndexToPath. rewrite mask_init by exact Hh.
+  destruct (shortcut_spec h idx Hh Hi) as (c & q0 & idx' & Hc & Hq & Hi' & Er & EN).
+  rewrite Er.
+  destruct (loop_result h Hh c q0 idx' 64 Hc Hq Hi' ltac:(lia)) as (p2' & idx'' & mask' & t & L1 & L2 & L3).
+  rewrite L1, L2, L3, EN. reflexivity.
+Qed.
+
+(** C05, first form *)
+Lemma IndexToPath_inverse h idx : (h <= 30)%nat -> 0 <= idx < 2 ^ (Z.of_nat h + 1) - 1 ->
+  exists q, (length q <= h)%nat /\
+    IndexToPath (Z.of_nat h) idx = Some (enc h q) /\
+    PathToIndex (2 ^ (Z.of_nat h + 1) - 1) (enc h q) = Some idx.
+Proof.
+  intros Hh Hi. exists (node_at h idx). split; [apply node_at_length|]. split.
+  - now apply IndexToPath_node_at.
+  - change (2 ^ (Z.of_nat h + 1) - 1) with (fullT h).
+    rewrite PathToIndex_full by (try lia; apply node_at_length).
+    now rewrite full_rank_node_at.
+Qed.
+
+(** C05, second form: IndexToPath after PathToIndex is the identity on the nodes of the full tree *)
+Lemma IndexToPath_PathToIndex h q : (h <= 30)%nat -> (length q <= h)%nat ->
+  exists i, PathToIndex (2 ^ (Z.of_nat h + 1) - 1) (enc h q) = Some i /\
+            0 <= i < 2 ^ (Z.of_nat h + 1) - 1 /\
+            IndexToPath (Z.of_nat h) i = Some (enc h q).
+Proof.
+  intros Hh Hl. exists (full_rank h q). split; [|split].
+  - change (2 ^ (Z.of_nat h + 1) - 1) with (fullT h). now apply PathToIndex_full.
+  - now apply full_rank_bound.
+  - rewrite IndexToPath_node_at by (try lia; now apply full_rank_bound).
+    now rewrite node_at_full_rank.
+Qed.
+
+(** the loop and the table alone (shortcut skipped): the statement DESIGN names as the fallback *)
+Lemma loop_table_only h idx : (h <= 30)%nat -> 0 <= idx < 2 ^ (Z.of_nat h + 1) - 1 ->
+  match descent_loop 64 0 idx (maskAt h) with
+  | Some (p2, i, m) =>
+      match idxToPath_at (Z.land m 15) i with
+      | Some t => Z.lor (shr64 p2 1) t = enc h (node_at h idx)
+      | None => False
+      end
+  | None => False
+  end.
+Proof.
+  intros Hh Hi.
+  destruct (loop_result h Hh h [] idx 64 ltac:(lia) ltac:(cbn [length]; lia) Hi ltac:(lia))
+    as (p2' & idx' & mask' & t & L1 & L2 & L3).
+  replace (p2At h h (val_msb [])) with 0 in L1.
+  2:{ unfold p2At. rewrite val_msb_nil, Nat.sub_diag. change (2 ^ Z.of_nat 0) with 1. lia. }
+  rewrite L1, L2. exact L3.
+Qed.
